@@ -136,6 +136,9 @@ func BuildMsg(actors []*Actor, m *MsgSpec) (sdk.Msg, error) {
 	if m.Up {
 		A = strings.ToUpper(A)
 	}
+	if m.UpB {
+		B = strings.ToUpper(B)
+	}
 	switch m.T {
 	case "ent.raise":
 		return &enttypes.MsgUndPurchaseOrder{Purchaser: A, Amount: coinOf(m.Amt, m.Denom)}, nil
